@@ -1557,6 +1557,19 @@ func (fr *Frame) execSelect(st *State, i *ssa.Select) {
 	}
 	// ghost: the chosen case is visible to contracts as ret("select")
 	fr.afterCall(st, "select", vals[0])
+	// ghost: the value a receive case would deliver is visible as ret("recvcase.value<k>") (k = index of the case in
+	// source order); it is what the code sees when ret("select") == k
+	{
+		j := 2
+		for k, sc := range i.States {
+			if sc.Dir == types.RecvOnly {
+				if j < len(vals) {
+					fr.afterCall(st, fmt.Sprintf("recvcase.value%d", k), vals[j])
+				}
+				j++
+			}
+		}
+	}
 	// ghost: whether a send case was the one taken: counttrue0("sendcase.taken") counts the sends that happened
 	for k, sc := range i.States {
 		if sc.Dir == types.SendOnly && sc.Send != nil {
